@@ -52,6 +52,55 @@ def check_doc(data, expected, has_err, legend, class_table, kw_default):
     return None
 
 
+def comments_of(text):
+    """independent of the lexer under test: the comments of a text, scanned by hand (strings skipped) ->
+    [(line, column in bytes, in characters, in UTF-16 units)], or None if the text has an unterminated comment / string"""
+    out = []
+    i, n = 0, len(text)
+    while i < n:
+        c = text[i]
+        if text.startswith("(*", i):
+            j = text.find("*)", i + 2)
+            if j < 0:
+                return None
+            out.append(i)
+            i = j + 2
+        elif text.startswith("//", i):
+            out.append(i)
+            j = text.find("\n", i)
+            i = n if j < 0 else j
+        elif c in "'\"":
+            j = text.find(c, i + 1)
+            if j < 0:
+                return None
+            i = j + 1
+        else:
+            i += 1
+    res = []
+    for i in out:
+        line = text.count("\n", 0, i)
+        seg = text[text.rfind("\n", 0, i) + 1:i]
+        res.append((line, len(seg.encode("utf-8")), len(seg), len(seg.encode("utf-16-le")) // 2))
+    return res
+
+
+def comment_oracle(text, data, legend):
+    """every comment of a valid document is a lexeme of the response, with the legend entry 'comment' (None = fine)"""
+    if data is None or not isinstance(data, list) or "(*@" in text:
+        return None
+    dec = decode(data)
+    if dec is None:
+        return None
+    want = comments_of(text)
+    if want is None:
+        return None
+    got = set((d[0], d[1]) for d in dec if d[3] < len(legend) and legend[d[3]] == "comment")
+    for line, cb, cc, cu in want:
+        if not ({(line, cb), (line, cc), (line, cu)} & got):
+            return "comment-of-the-document-missing-in-the-response"
+    return None
+
+
 def run_batch(docs):
     """docs: list of texts.  One server process: open the first, change to each next one, requesting the
     tokens after every edit (an edit history).  The two equivalent spellings of the document's URI alternate between the
